@@ -100,9 +100,11 @@ int main(int argc, char** argv)
 			int n = c["n"];
 			if(n > 170 || (quick && n > 30 && n % 10 != 0 && n != 170 && n != 169))
 				continue;
-			for(int j = 0; j <= 8; j++)
+			for(int j = 0; j <= 12; j++)
 			{
-				long double p = j / 8.0L;
+				// p = j/8, and (j = 9..12) p within 2^-7 and 2^-12 of one and of zero: there (1-p)^n or p^n leaves the range of doubles
+				// (n = 170: 2^-1190, 2^-2040), which a recurrence started from that power does not survive
+				long double p = j <= 8 ? j / 8.0L : (j == 9 ? 1.0L - 0.0078125L : (j == 10 ? 0.0078125L : (j == 11 ? 1.0L - 0.000244140625L : 0.000244140625L)));
 				long double worstp = 0, worstc = 0, acc = 0;
 				double libsum = 0;
 				bool nonneg = true, mono = true;
